@@ -94,6 +94,7 @@ let exn_name = function
   | Outcome.PyTypeError -> "TypeError"
   | Outcome.PyIndexError -> "IndexError"
   | Outcome.PyNotImplementedError -> "NotImplementedError"
+  | Outcome.PyOSError -> "OSError"
 let warn_name = function
   | Outcome.StoryNotFound -> "StoryNotFoundWarning"
   | Outcome.ItemNotFound -> "ItemNotFoundWarning"
@@ -272,6 +273,32 @@ let run_case (line : string) =
                    out " ; "; pr_ostr (Elements.item_id i); outc (); pr_ostr (Elements.item_slug i);
                    outc (); pr_ostr (Elements.item_type i); outc (); pr_ostr (Elements.item_object_id i);
                    outc (); pr_ostr (Elements.item_mos_id i); outc (); pr_ostr (Elements.item_note i)) items) l))
+   | "list" ->
+     (* list <suffix> <npages> then per page: n, or <nkeys> followed by the keys : S3 listing *)
+     let suffix = rd_str r in
+     let pages = rd_list r (fun r -> let t = next r in
+                             if t = "n" then None else Some (rd_n r (int_of_string t) rd_str)) in
+     let ks = S3.get_mos_files pages suffix in
+     out (string_of_int (L.length ks)); L.iter (fun k -> outc (); pr_str k) ks
+   | "cli" ->
+     (* cli <inspect> <nfiles> then per file: <name> and D <doc>, B or U : detect / inspect output lines *)
+     let insp = rd_bool r in
+     let files = rd_list r (fun r -> let name = rd_str r in
+                             let t = next r in
+                             (name, if t = "D" then Cli.FDoc (rd_xml r) else if t = "B" then Cli.FBadXml else Cli.FUnreadable)) in
+     let (ls, status) = Cli.detect_cmd insp files in
+     out (string_of_int (int_of_nat status)); outc (); out (string_of_int (L.length ls));
+     L.iter (fun l -> outc (); match l with Cli.Out s -> out "O "; pr_str s | Cli.Err s -> out "E "; pr_str s) ls
+   | "clim" ->
+     (* clim <oracles> <incomplete> <nonstrict> <nfiles> then per file: D <doc>, B or U : merge command *)
+     let o = rd_oracles r in
+     let inc = rd_bool r in
+     let ns = rd_bool r in
+     let files = rd_list r (fun r -> let t = next r in
+                             if t = "D" then Cli.FDoc (rd_xml r) else if t = "B" then Cli.FBadXml else Cli.FUnreadable) in
+     let (status, outp) = Cli.merge_cmd o files inc ns in
+     out (string_of_int (int_of_nat status));
+     (match outp with None -> out " none" | Some x -> out " doc "; pr_xml x)
    | "coll" ->
      let o = rd_oracles r in
      let inc = rd_bool r in
